@@ -32,9 +32,10 @@ type parsed struct {
 }
 
 // VerifC17Staking: the staking hook over a receipt with up to two logs.
-//   D1 only logs whose address is the staking system contract lead to a native action
-//   D2 each such log leads to exactly one routed message, in order, for exactly the event's account, validator(s), amount
-//   D3 a failing native action fails the hook (so Ethermint reverts the whole EVM transaction)
+//
+//	D1 only logs whose address is the staking system contract lead to a native action
+//	D2 each such log leads to exactly one routed message, in order, for exactly the event's account, validator(s), amount
+//	D3 a failing native action fails the hook (so Ethermint reverts the whole EVM transaction)
 func VerifC17Staking() {
 	router := &baseapp.MsgServiceRouter{}
 	h := NewHookAdapter(nil, &stakingkeeper.Keeper{}, nil, router)
